@@ -66,6 +66,8 @@ struct Spec {
     ku: u16,
     eku: Vec<u8>,
     crit_ext: bool,
+    /// future-extensions elements: each a list of X.509 extensions given by their critical flag (in addition to `crit_ext`)
+    exts: Vec<Vec<bool>>,
     bad_sig: bool,
     serial: u8,
 }
@@ -121,6 +123,21 @@ fn build(s: &Spec) -> Vec<u8> {
             // one X.509 Extension { OID 1.2.3.4, critical TRUE, extnValue 00 } carried verbatim
             tw.str(&TLVTag::Context(6), &[0x30, 0x0b, 0x06, 0x03, 0x2a, 0x03, 0x04, 0x01, 0x01, 0xff, 0x04, 0x01, 0x00]).unwrap();
         }
+        for (x, el) in s.exts.iter().enumerate() {
+            // each element carries its DER Extension structures back to back: OID 1.2.3.(10+x).(y), [critical TRUE,] extnValue 00
+            let mut der = Vec::new();
+            for (y, crit) in el.iter().enumerate() {
+                let mut e = vec![0x06, 0x04, 0x2a, 0x03, 10 + x as u8, y as u8];
+                if *crit {
+                    e.extend_from_slice(&[0x01, 0x01, 0xff]);
+                }
+                e.extend_from_slice(&[0x04, 0x01, 0x00]);
+                der.push(0x30);
+                der.push(e.len() as u8);
+                der.extend_from_slice(&e);
+            }
+            tw.str(&TLVTag::Context(6), &der).unwrap();
+        }
         tw.end_container().unwrap();
         tw.end_container().unwrap();
         tw.get_tail()
@@ -157,15 +174,15 @@ struct Keys {
 
 fn base_root(k: &Key) -> Spec {
     Spec { subject: vec![(DN_ROOT, 1)], issuer: vec![(DN_ROOT, 1)], key: k.clone(), signer: k.clone(), akid: k.kid, nb: 1, na: 0,
-           is_ca: true, path_len: None, ku: KU_CERTSIGN | KU_CRLSIGN, eku: vec![], crit_ext: false, bad_sig: false, serial: 1 }
+           is_ca: true, path_len: None, ku: KU_CERTSIGN | KU_CRLSIGN, eku: vec![], crit_ext: false, exts: vec![], bad_sig: false, serial: 1 }
 }
 fn base_ica(k: &Key, root: &Key) -> Spec {
     Spec { subject: vec![(DN_ICA, 2)], issuer: vec![(DN_ROOT, 1)], key: k.clone(), signer: root.clone(), akid: root.kid, nb: 1, na: 0,
-           is_ca: true, path_len: Some(0), ku: KU_CERTSIGN | KU_CRLSIGN, eku: vec![], crit_ext: false, bad_sig: false, serial: 1 }
+           is_ca: true, path_len: Some(0), ku: KU_CERTSIGN | KU_CRLSIGN, eku: vec![], crit_ext: false, exts: vec![], bad_sig: false, serial: 1 }
 }
 fn base_noc(k: &Key, parent: &Spec) -> Spec {
     Spec { subject: vec![(DN_NODE, 7), (DN_FABRIC, FAB)], issuer: parent.subject.clone(), key: k.clone(), signer: parent.key.clone(),
-           akid: parent.key.kid, nb: 1, na: 0, is_ca: false, path_len: None, ku: KU_DIGSIG, eku: vec![1, 2], crit_ext: false, bad_sig: false, serial: 1 }
+           akid: parent.key.kid, nb: 1, na: 0, is_ca: false, path_len: None, ku: KU_DIGSIG, eku: vec![1, 2], crit_ext: false, exts: vec![], bad_sig: false, serial: 1 }
 }
 
 /// The concrete counterpart of CertChain!Apply.
@@ -201,6 +218,20 @@ fn apply(ch: Vec<Spec>, m: &str, k: &Keys) -> Vec<Spec> {
         "icaPathLen1" => ch[ica].path_len = Some(1),
         "nocCritExt" => ch[0].crit_ext = true,
         "icaCritExt" => ch[ica].crit_ext = true,
+        "rootCritExt" => ch[n - 1].crit_ext = true,
+        "nocBenignExt" => ch[0].exts = vec![vec![false]],
+        "icaBenignExt" => ch[ica].exts = vec![vec![false], vec![false]],
+        "nocCritExtSecondElement" => ch[0].exts = vec![vec![false], vec![true]],
+        "icaCritExtSecondElement" => ch[ica].exts = vec![vec![false], vec![true]],
+        "rootCritExtThirdElement" => ch[n - 1].exts = vec![vec![false], vec![false], vec![true]],
+        "nocCritExtSecondInElement" => ch[0].exts = vec![vec![false, true]],
+        "nocIssuerEmpty" => ch[0].issuer = vec![],
+        "nocIssuerExtraAttr" => ch[0].issuer.push((DN_FABRIC, FAB)),
+        "icaIssuerEmpty" => ch[ica].issuer = vec![],
+        "icaIssuerExtraAttr" => ch[ica].issuer.push((DN_FABRIC, FAB)),
+        "rootIssuerEmpty" => ch[n - 1].issuer = vec![],
+        "rootIssuerExtraAttr" => ch[n - 1].issuer.push((DN_FABRIC, FAB)),
+        "rootSubjectExtraAttr" => ch[n - 1].subject.push((DN_FABRIC, FAB)),
         "nocNoNodeId" => ch[0].subject.retain(|(t, _)| *t != DN_NODE),
         "nocNoFabricId" => ch[0].subject.retain(|(t, _)| *t != DN_FABRIC),
         "nocOtherFabric" => {
@@ -301,7 +332,7 @@ pub fn run(args: &[String]) -> i32 {
                     let certs: Vec<Vec<u8>> = ch.iter().map(build).collect();
                     // the local fabric trusts the root it was commissioned with: the (possibly mutated) root of the
                     // chain when it carries the trusted key, the genuine root otherwise
-                    let trusted_root = if ch[ch.len() - 1].key.kid == k.root.kid && ch[ch.len() - 1].subject == vec![(DN_ROOT, 1)] {
+                    let trusted_root = if ch[ch.len() - 1].key.kid == k.root.kid {
                         certs[certs.len() - 1].clone()
                     } else {
                         build(&root)
